@@ -211,7 +211,13 @@ class TaskScenario(ScenarioData):
         for task in self.project.tasks:
             if not task.leaf():
                 continue
-            deps = task.get("depends", self.scenarioIdx) or []
+            # Own dependencies and those of every enclosing container: a child that has
+            # dependencies of its own does not inherit the container's list as an attribute
+            task_scenario = task.data[self.scenarioIdx] if task.data else None
+            if task_scenario is not None:
+                deps = task_scenario.getAllDependencies()
+            else:
+                deps = task.get("depends", self.scenarioIdx) or []
             for dep in deps:
                 if isinstance(dep, dict):
                     pred = dep.get("task")
